@@ -33,11 +33,13 @@ func c10SymPath(label string, maxSegs int) string {
 
 type c10Fetcher struct{}
 
+var c10AbsIntoWorkdir bool
 var c10Bad bool       // the fetched tree holds an escaping / dangling link or a special file
 var c10WorkDir string // where the package was fetched to
 
 func (c10Fetcher) FetchSourcePackage(ctx context.Context, sourceType string, u *url.URL, targetDir string) (FetchSourcePackageResponse, error) {
 	c10WorkDir = targetDir
+	c10AbsIntoWorkdir = false
 	dirs := []string{targetDir}
 	n := verif.Param("N", 2)
 	var links []string
@@ -54,6 +56,12 @@ func (c10Fetcher) FetchSourcePackage(ctx context.Context, sourceType string, u *
 			dirs = append(dirs, p)
 		case 2:
 			t := c10SymPath("target", verif.Param("sLink", 3))
+			if verif.Bool("target.into-workdir") {
+				// an absolute target that names something inside the directory the package was
+				// fetched into (which is not where the package ends up)
+				t = targetDir + "/" + t
+				c10AbsIntoWorkdir = true
+			}
 			envSymlink(p, t, 1000)
 			links = append(links, p)
 		case 3:
@@ -128,7 +136,11 @@ type c10RulesFetcher struct{}
 
 func (c10RulesFetcher) FetchSourcePackage(ctx context.Context, sourceType string, u *url.URL, targetDir string) (FetchSourcePackageResponse, error) {
 	envMkdir(targetDir+"/c", 0755, 1000)
-	if verif.Bool("rules.via-link") {
+	rulesFifo := verif.Bool("rules.fifo")
+	if rulesFifo {
+		// the rule file is a special file: the package must be refused (and the fifo never opened)
+		envMkfifo(targetDir + "/.terraformignore")
+	} else if verif.Bool("rules.via-link") {
 		// the rule file is itself an in-package link to a regular file: its rules apply all the same
 		envWriteFile(targetDir+"/c/rules", 0644, 1000, "*.log\n/top.txt\ng\nd/\n")
 		envSymlink(targetDir+"/.terraformignore", "c/rules", 1000)
@@ -147,6 +159,11 @@ func (c10RulesFetcher) FetchSourcePackage(ctx context.Context, sourceType string
 	envSymlink(targetDir+lname, t, 1000)
 	real := envRealPath(targetDir + lname)
 	realRoot := envRealPath(targetDir) // the target directory may itself be reached through a link
+	defer func() {
+		if rulesFifo {
+			c10Bad = true
+		}
+	}()
 	c10Bad = real == "" || !(real == realRoot || wHasPrefix(real, realRoot+"/"))
 	if !c10Bad {
 		if k := envLstatKind(real); k != envFile && k != envDir {
@@ -174,6 +191,7 @@ func HarnessC10Rules() {
 	envBaseline()
 	src := wSource(wNode{0, 0})
 	diags := b.AddRemoteSource(ctx, src, wFinder{wNode{0, 0}, 0})
+	verif.Assert("no-hang", !envBlocked()) // a fifo was opened for reading: the build would block forever
 	if diags.HasErrors() {
 		verif.Reach("build-failed")
 		return
